@@ -67,6 +67,9 @@ func NewPAT(patBytes []byte) (PAT, error) {
 		if err != nil {
 			return nil, err
 		}
+		if len(patBytes) < 13 {
+			return nil, gots.ErrInvalidPATLength
+		}
 	}
 
 	return pat(patBytes), nil
